@@ -236,6 +236,8 @@ pub fn catalogue() -> Vec<Prog> {
         stringz("Hi!\n").lab("msg"), fill(-1234).lab("num"), fill(0x6261).lab("pk"), fill(0x0063), fill(0),
         fill(0x6867).lab("pk2"), fill(0x0069), fill(0x6b6a), fill(0),
     ]));
+    // IN and GETC each given bytes >= 0x80 (and an ASCII one between them)
+    v.push(p("in_nonascii", false, b"\xc3\xa9A\xff\x80z", vec![plain("in"), plain("in"), plain("in"), plain("getc"), plain("in"), plain("getc"), halt()]));
     v.push(p("eofin", false, b"A", vec![plain("getc"), plain("getc"), halt()]));
     // a subroutine that never returns: it halts (error exit)
     v.push(p("failcall", false, b"", vec![pc_lab("lea", 0, "emsg"), pc_lab("jsr", 0, "fail"), add_i(1, 1, 1), halt(),
